@@ -13,6 +13,19 @@
 (*   PermuteCall       Graph(g1, domain_perm, image_perm)                   *)
 (*   RenameCall        g1.permute_indices(q)                                *)
 (*   MatPermCall       SparseMatrixCSR::permute(pr, pc), DenseVector::permute(pr) *)
+(* and on Adjacency::DynamicGraph (kernel/adjacency/dynamic_graph.hpp), a   *)
+(* SET-valued relation (one std::set of images per domain node), i.e. the   *)
+(* injectified relation with ascending images - its value is written as the *)
+(* graph value of Render("injectify_sorted", .):                            *)
+(*   DynRenderCall(t)   DynamicGraph(RenderType t, g1): every render type   *)
+(*                      gives the injectified relation, transposing types   *)
+(*                      its converse; plus degree, exists, get_num_indices, *)
+(*                      clone and the conversion back Graph(as_is, dyn)     *)
+(*   DynRender2Call(t)  DynamicGraph(RenderType t, g1, g2)  (composition)   *)
+(*   DynComposeCall     DynamicGraph(as_is, g1).compose(g2)                 *)
+(*   DynEditCall        insert(i, j) / erase(i, j) on DynamicGraph(as_is,   *)
+(*                      g1): returns whether the pair was absent / present  *)
+(*   DynClearCall       clear(): no adjacency, same node counts             *)
 (* The INVARIANTS Law* check the constructive prediction against the        *)
 (* declarative bag semantics for every generated case; Emit prints the case.*)
 EXTENDS Adjacency, Json, TLC
@@ -27,7 +40,7 @@ VARIABLES ph, g1, g2, call, res
 vars == <<ph, g1, g2, call, res>>
 
 NoGraph == [nd |-> 0, ni |-> 0, ptr |-> <<0>>, idx |-> <<>>]
-NoCall == [op |-> "none", t |-> "", dp |-> <<>>, ip |-> <<>>]
+NoCall == [op |-> "none", t |-> "", dp |-> <<>>, ip |-> <<>>, ei |-> 0, ej |-> 0, ret |-> FALSE]
 
 \* matrix of mode mperm: pattern P with position-coded non-zero values
 MVal(n, i, j) == (i - 1) * n + j
@@ -90,7 +103,34 @@ MatPermCall ==
             [D |-> PermuteMat(g1.nd, g1.ni, g1.D, pr, pc),
              v |-> PermuteVec([i \in 1..g1.nd |-> 10 + i], pr)])
 
-Next == RenderCall \/ SortCall \/ InspectCall \/ Render2Call \/ CompAdjCall \/ PermuteCall \/ RenameCall \/ MatPermCall
+\* ---- DynamicGraph: the set-valued relation, written as its sorted duplicate-free graph value --------------
+DynType(t) == IF Transposing(t) THEN "injectify_transpose_sorted" ELSE "injectify_sorted"
+DynOf(t, g) == Render(DynType(t), g)
+DynOf2(t, ga, gb) == Render2(DynType(t), ga, gb)
+\* the graph value of the relation with support S
+OfSupport(nd, ni, S) == GraphOf(nd, ni, [i \in 1..nd |-> Flatten([j \in 1..ni |-> IF <<i - 1, j - 1>> \in S THEN <<j - 1>> ELSE <<>>])])
+
+DynRenderCall ==
+  /\ ph = "init" /\ Mode = "single"
+  /\ \E t \in RenderTypes : Done([NoCall EXCEPT !.op = "dyn_render", !.t = t], DynOf(t, g1))
+DynRender2Call ==
+  /\ ph = "init" /\ Mode = "compose"
+  /\ \E t \in RenderTypes : Done([NoCall EXCEPT !.op = "dyn_render2", !.t = t], DynOf2(t, g1, g2))
+DynComposeCall ==
+  /\ ph = "init" /\ Mode = "compose"
+  /\ Done([NoCall EXCEPT !.op = "dyn_compose", !.t = "as_is"], DynOf2("as_is", g1, g2))
+\* (the pre-state DynamicGraph(as_is, g1) depends on the support of g1 only: edits start from the canonical graphs)
+DynEditCall ==
+  /\ ph = "init" /\ Mode = "single" /\ g1 = Render("injectify_sorted", g1)
+  /\ \E kind \in {"insert", "erase"}, i \in 0..(g1.nd - 1), j \in 0..(g1.ni - 1) :
+       LET S == Support(g1)  present == <<i, j>> \in S IN
+       Done([NoCall EXCEPT !.op = "dyn_edit", !.t = kind, !.ei = i, !.ej = j, !.ret = (IF kind = "insert" THEN ~present ELSE present)],
+            OfSupport(g1.nd, g1.ni, IF kind = "insert" THEN S \cup {<<i, j>>} ELSE S \ {<<i, j>>}))
+DynClearCall ==
+  /\ ph = "init" /\ Mode = "single"
+  /\ Done([NoCall EXCEPT !.op = "dyn_clear"], OfSupport(g1.nd, g1.ni, {}))
+
+Next == DynRenderCall \/ DynRender2Call \/ DynComposeCall \/ DynEditCall \/ DynClearCall \/ RenderCall \/ SortCall \/ InspectCall \/ Render2Call \/ CompAdjCall \/ PermuteCall \/ RenameCall \/ MatPermCall
 Spec == Init /\ [][Next]_vars
 
 \* ---- laws (the constructive prediction obeys the declarative semantics) ---------------------------
@@ -114,12 +154,22 @@ LawMatPerm == ph = "done" /\ call.op = "matperm" =>
                 LayoutOf(g1.nd, g1.ni, res.D) =
                   Render("as_is_sorted", PermuteGraph(LayoutOf(g1.nd, g1.ni, g1.D), call.dp, Inv0(call.ip)))
 
+\* DynamicGraph: the injectified (set) semantics of Rel.tla, ascending images; an unedited as-is rendering has the
+\* support of the source; insert/erase change exactly one pair
+LawDyn == ph = "done" /\ call.op = "dyn_render" => LawRender(DynType(call.t), g1, res)
+LawDyn2 == ph = "done" /\ call.op \in {"dyn_render2", "dyn_compose"} => LawRender2(DynType(call.t), g1, g2, res)
+LawDynEdit == ph = "done" /\ call.op = "dyn_edit" =>
+  /\ GraphValid(res) /\ res.nd = g1.nd /\ res.ni = g1.ni
+  /\ \A i \in 1..res.nd : IsSortedSeq(AdjOf(res)[i]) /\ NoDup(AdjOf(res)[i])
+  /\ Support(res) = (IF call.t = "insert" THEN Support(g1) \cup {<<call.ei, call.ej>>} ELSE Support(g1) \ {<<call.ei, call.ej>>})
+  /\ call.ret = (Support(res) # Support(g1))
+
 \* ---- emission --------------------------------------------------------------------------------------
 FirstEmpty == Mode = "compose" /\ \E i \in 1..g1.nd : LET row == AdjOf(g1)[i] IN Len(row) > 0 /\ AdjOf(g2)[row[1] + 1] = <<>>
 Emit == ph = "done" =>
   PrintT(ToJson([mode |-> Mode, op |-> call.op, t |-> call.t, dp |-> call.dp, ip |-> call.ip, g1 |-> g1, g2 |-> g2,
                  exp |-> res, ordered |-> (call.op \notin {"render", "render2"} \/ OrderContractual(call.t)),
-                 first_empty |-> FirstEmpty,
+                 first_empty |-> FirstEmpty, ei |-> call.ei, ej |-> call.ej, ret |-> call.ret,
                  deg |-> (IF Mode = "mperm" THEN <<>> ELSE [i \in 1..g1.nd |-> Degree(g1, i - 1)]),
                  maxdeg |-> (IF Mode = "mperm" THEN 0 ELSE MaxDegree(g1))]))
 =============================================================================
